@@ -18,6 +18,7 @@ func main() {
 	reg := map[string]harness.Harness{
 		"C09": c09.H{},
 		"C10": c10.H{},
+		"C11": harness.External{Property: "C11", Ver: "c11-v5", M: plat.C11Meta(), Quick: 600, Thor: 20000, Bin: "plat.test", TestName: "TestJob", Classify: plat.ClassifyExit},
 		"C12": harness.External{Property: "C12", Ver: "c12-v4", M: plat.C12Meta(), Quick: 1200, Thor: 60000, Bin: "plat.test", TestName: "TestJob", Classify: plat.ClassifyExit},
 		"C15": c15.H{},
 		"C16": c16.H{},
